@@ -13,12 +13,32 @@ from .pylists import occurs
 TRUSTED = "model:python aggregates over generator expressions (all/any/sum/min/max) = quantifier / ghost prefix sum"
 
 
+def new_consts(exprs, mark):
+    """uninterpreted constants created after `mark` (fresh symbols of the element evaluation)"""
+    out, seen, todo = {}, set(), list(exprs)
+    while todo:
+        x = todo.pop()
+        if x.get_id() in seen:
+            continue
+        seen.add(x.get_id())
+        if z3.is_quantifier(x):
+            todo.append(x.body())
+        elif z3.is_app(x):
+            if x.num_args() == 0 and x.decl().kind() == z3.Z3_OP_UNINTERPRETED:
+                nm = x.decl().name()
+                if "!" in nm and nm.rsplit("!", 1)[1].isdigit() and int(nm.rsplit("!", 1)[1]) > mark:
+                    out[nm] = x
+            todo.extend(x.children())
+    return out
+
+
 def gen_parts(self, g, st, spec):
     if len(g.generators) != 1:
         raise EngineError("generator expression with several for-clauses")
     comp = g.generators[0]
     desc = self.iterable(comp.iter, st)
     k = V.fresh("k", I)
+    mark = V.fresh_mark()
     st2 = State(env=dict(st.env), pc=st.pc, heap=st.heap, old=st.old, nxt=st.nxt)
     st2.oldheap = st.oldheap
     st2.decided = getattr(st, "decided", {})
@@ -29,12 +49,24 @@ def gen_parts(self, g, st, spec):
     cond = z3.And(*conds) if conds else z3.BoolVal(True)
     # the element is evaluated under the guard (k in range, filter holds)
     st2.pc = st.pc
-    mark = len(st.pc)
     elt = self.ev(g.elt, st2, spec)
     guard = z3.And(0 <= k, k < desc.count)
-    # universally close the facts that mention k
+    # universally close the facts that mention k; fresh symbols of the element evaluation that occur in such facts are
+    # per-element values: they become Skolem functions of k
     new = st.pc[npc:]
     del st.pc[npc:]
+    dep = [f for f in new if occurs(f, k)]
+    if dep and not is_num(elt) and not is_bool(elt):
+        raise EngineError("generator element with per-element auxiliary definitions and a non-scalar value")
+    sk = new_consts(dep, mark)
+    sub = [(c, z3.Function(nm + "_sk", I, c.sort())(k)) for nm, c in sk.items()]
+    if sub:
+        new = [z3.substitute(f, *sub) for f in new]
+        cond = z3.substitute(cond, *sub)
+        elt = z3.substitute(elt, *sub)
+        for o in self.obls[nobl:]:
+            o.goal = z3.substitute(o.goal, *sub)
+            o.hyps = o.hyps[:npc] + [z3.substitute(h, *sub) for h in o.hyps[npc:]]
     for f in new:
         st.pc.append(z3.ForAll(k, z3.Implies(guard, f)) if occurs(f, k) else f)
     # safety obligations generated for the generic element hold for every k: close them too
